@@ -382,7 +382,10 @@ def run_shard(shard):
             res.case((cname, tuple(calls)), nontrivial=bool(calls), transitions=len(dseq), config=f"{cname}/{'legacy' if legacy else 'new'}", sample=case)
             if fail:
                 mode = "burst" if any(x is not None for x in sched) else "settled"
-                res.fail(f"{cname}|{'legacy' if legacy else 'new'}|{fail['kind']}|{mode}", case, expected=fail.get("expected"),
+                sig = f"{cname}|{'legacy' if legacy else 'new'}|{fail['kind']}|{mode}"
+                if fail["kind"] == "cross-decorator-order":
+                    sig = f"*|{'legacy' if legacy else 'new'}|cross-decorator-order|{mode}"
+                res.fail(sig, case, expected=fail.get("expected"),
                          observed=fail.get("observed"), detail=fail)
     return res
 
